@@ -297,8 +297,22 @@ impl Scenario for Hist {
                     }
                 }
             } else {
+                let mut first: Option<TableDef> = None;
                 for i in 0..self.sw.n_tables {
-                    let d = gen_table(rng, &self.sw, &format!("t{}", i));
+                    let mut d = gen_table(rng, &self.sw, &format!("t{}", i));
+                    // sometimes a second table with the same columns, so that INSERT ... SELECT *
+                    // (bulk-transfer shape) is possible
+                    if let (Some(f), true) = (&first, self.sw.w_insert_select > 0 && i == 1 && rng.chance(2, 3)) {
+                        d = f.clone();
+                        d.name = format!("t{}", i);
+                        if rng.chance(1, 2) {
+                            d.uniques.clear();
+                            d.checks.clear();
+                        }
+                    }
+                    if first.is_none() {
+                        first = Some(d.clone());
+                    }
                     self.setup.push(Op::create_table(d));
                 }
             }
@@ -328,6 +342,8 @@ impl Scenario for Hist {
             if sw.with_tx { sw.w_tx } else { 0 },
             if sw.ddl_in_history && !no_ddl_now { sw.w_ddl } else { 0 },
             if sw.with_analyze && !no_ddl_now { 1 } else { 0 },
+            sw.w_insert_select * 2,
+            if sw.ddl_in_history && !no_ddl_now && !sw.with_fk { 1 } else { 0 },
         ];
         let chosen = match rng.weighted(&weights) {
             0 => {
@@ -439,7 +455,62 @@ impl Scenario for Hist {
                     Op::create_table(gen_table(rng, &sw, &name))
                 }
             }
-            _ => Op::new(Kind::Analyze, format!("ANALYZE {}", def.name)).table(&def.name),
+            7 => Op::new(Kind::Analyze, format!("ANALYZE {}", def.name)).table(&def.name),
+            8 => {
+                // INSERT variants with their own code paths: ON DUPLICATE KEY UPDATE, REPLACE,
+                // INSERT ... SELECT (bulk-transfer shape and general shape)
+                let base_fault = if rng.chance(1, 2) { RowFault::DupKeyVsTable } else { RowFault::None };
+                let base = gen_insert(rng, &sw, &self.sut, &def, Some(base_fault));
+                match rng.below(4) {
+                    0 => {
+                        let ci = rng.usize(def.cols.len());
+                        let e = gen_set_expr(rng, &sw, &self.sut, &def, ci);
+                        let mut op = Op::new(Kind::Other, format!("{} ON DUPLICATE KEY UPDATE {} = {}", base.sql, def.cols[ci].name, e)).table(&def.name);
+                        op.fault = "on-duplicate-key-update".into();
+                        op
+                    }
+                    1 => {
+                        let mut op = Op::new(Kind::Other, base.sql.replacen("INSERT INTO", "REPLACE INTO", 1)).table(&def.name);
+                        op.fault = "replace".into();
+                        op
+                    }
+                    _ => {
+                        // source table with the same column types
+                        let srcs: Vec<&TableDef> = self.world.tables.values().filter(|t| t.name != def.name && t.cols.len() == def.cols.len() && t.cols.iter().zip(def.cols.iter()).all(|(a, b)| a.ty_class() == b.ty_class())).collect();
+                        match srcs.first() {
+                            Some(src) => {
+                                let wh = if rng.chance(1, 2) { String::new() } else { format!(" WHERE {}", gen_pred(rng, &sw, &self.sut, src, o)) };
+                                let mut op = Op::new(Kind::InsertSelect, format!("INSERT INTO {} SELECT * FROM {}{}", def.name, src.name, wh)).table(&def.name);
+                                op.fault = "insert-select".into();
+                                op
+                            }
+                            None => base,
+                        }
+                    }
+                }
+            }
+            _ => {
+                // ALTER TABLE ADD CONSTRAINT on existing data (may or may not hold)
+                let mut d2 = def.clone();
+                let ci = rng.usize(def.cols.len());
+                let cname = self.world.fresh_name("k");
+                let sql = if def.cols[ci].ty == Ty::Int && rng.chance(1, 2) {
+                    let ch = Check::ColLit { col: ci, op: *rng.pick(&[Cmp::Ne, Cmp::Ge, Cmp::Le]), lit: rng.range(0, sw.domain - 1) };
+                    let t = format!("ALTER TABLE {} ADD CONSTRAINT {} CHECK ({})", def.name, cname, def.check_sql(&ch));
+                    d2.checks.push(ch);
+                    t
+                } else if def.pk.is_empty() && rng.chance(1, 3) {
+                    d2.pk = vec![ci];
+                    format!("ALTER TABLE {} ADD CONSTRAINT {} PRIMARY KEY ({})", def.name, cname, def.cols[ci].name)
+                } else {
+                    d2.uniques.push(vec![ci]);
+                    format!("ALTER TABLE {} ADD CONSTRAINT {} UNIQUE ({})", def.name, cname, def.cols[ci].name)
+                };
+                let mut op = Op::new(Kind::Alter, sql).table(&def.name);
+                op.def = Some(d2);
+                op.fault = "alter-add-constraint".into();
+                op
+            }
         };
         if cx_veto {
             cx.rep.count("guard_veto.c12_no_key_update_on_self_ref");
@@ -450,7 +521,7 @@ impl Scenario for Hist {
     fn step(&mut self, op: &Op, cx: &mut Ctx) -> Step {
         let want_c09 = cx.is("C09");
         let want_c11 = cx.is("C11");
-        let is_dml = matches!(op.kind, Kind::Insert | Kind::Update | Kind::Delete | Kind::InsertSelect);
+        let is_dml = matches!(op.kind, Kind::Insert | Kind::Update | Kind::Delete | Kind::InsertSelect) || (op.kind == Kind::Other && op.table.is_some());
 
         // ---- pre-state observations
         let pre_snap = if want_c11 && is_dml { Some(snapshot(&self.sut, true)) } else { None };
